@@ -290,6 +290,22 @@ def run_case(case, ctx):
             ctx.check("inside==outside-context", float(numpy.max(numpy.abs(results["inside"] - d))), 1e-10,
                       dict(det, what="site equilibrium requested inside eigenbasis_of(H) vs outside, both read in the site basis"),
                       mechanism="strong-coupling-inside-context")
+        # the same request with a relaxation Hamiltonian supplied by the caller: its site energies are used as they are given
+        # (documented: reorganisation energies are assumed to be removed already)
+        Hsup_d = numpy.array(H, dtype=float).copy()
+        lam_all = numpy.zeros(dim - nb0)
+        vsig_ = [tuple(int(x) for x in e) for (e, v) in agg.vibsigs]
+        for i_ in range(int(agg.Nb[1])):
+            lam_all[i_] = float(cfs[vsig_[nb0 + i_].index(1)].lamb)
+        Hsup_d[numpy.arange(nb0, dim), numpy.arange(nb0, dim)] += numpy.array([((7 * k + 3) % 5 - 2) * 0.35 for k in range(dim - nb0)]) * float(numpy.max(lam_all) or 1e-3)
+        with ctx.lib("get_DensityMatrix(thermal_excited_state, strong_coupling, relaxation_hamiltonian=...)", mechanism=None):
+            with fp():
+                Hsup = qr.Hamiltonian(data=Hsup_d.copy())
+                r = agg.get_DensityMatrix(condition_type="thermal_excited_state", relaxation_theory_limit="strong_coupling", temperature=T, relaxation_hamiltonian=Hsup)
+            d_s = site_rep(qr, r)
+        dets = dict(det, relaxation_hamiltonian="supplied")
+        if validity(ctx, d_s, dets):
+            boltzmann_check(ctx, numpy.real(numpy.diag(d_s))[nb0:], numpy.diag(Hsup_d)[nb0:], T, dets)
         ctx.sub(("tes-strong", N, T, tuple(desc["E"])), nontrivial=nontriv)
 
     # --- thermal_excited_state, weak coupling (excitonic equilibrium)
